@@ -4,6 +4,7 @@
 // State: one context at a time (recreated by `reset` / `ctx`), six std::ostringstream sinks the context's level
 // streams write into, and the log objects created so far (ids in creation order, restarting with the context).
 #include "common/vh.hpp"
+#include "common/route.hpp"
 
 #include <fcppt/exception.hpp>
 #include <fcppt/make_ref.hpp>
@@ -68,6 +69,123 @@ constexpr unsigned level_count = 6;
 
 // ---- state -------------------------------------------------------------------------------------------------
 std::array<std::ostringstream, level_count> sinks; // outlive every context
+
+// ---- special-member routing of the value classes of fcppt::log (common/route.hpp, notes/sweep.md) --------------------
+// Every name, location, optional level, optional formatter function, parameters object and level_stream the harness
+// builds from an operation's tokens travels through a special member of its class before it is used; the route is a
+// function of the token.  Mismatches are collected here and appended to the operation's result line by handle().
+std::string sm_mismatch;
+unsigned sm_op_salt{0U}; // a hash of the operation line's tokens (set by handle())
+unsigned sm_seq{0U}; // the number of routed objects of this operation so far (reset by handle())
+
+unsigned sm_route(unsigned const local) { return sm_op_salt + local + (sm_seq++) * 5U; }
+
+
+std::string show_fn_raw(fcppt::log::format::optional_function const &f)
+{
+  return fcppt::optional::maybe(
+      f, [] { return std::string{"-"}; }, [](fcppt::log::format::function const &g) { return g(fcppt::string{"x"}); });
+}
+
+fcppt::log::format::optional_function other_fn(fcppt::log::format::optional_function const &f, unsigned const r)
+{
+  // a set function is paired with nothing (even) or with another function (odd); nothing is paired with a function
+  if (f.has_value() && (r / vh::sm::copy_routes) % 2U == 0U)
+    return fcppt::log::format::optional_function{};
+  return fcppt::log::format::optional_function{
+      fcppt::log::format::function{[](fcppt::string const &t) -> fcppt::string { return "zq(" + t + ")"; }}};
+}
+
+fcppt::log::format::optional_function route_fn(fcppt::log::format::optional_function const &f, unsigned const r)
+{
+  return vh::sm::checked(
+      sm_mismatch, "log::format::optional_function", r, f, [&f, r] { return other_fn(f, r); }, show_fn_raw);
+}
+
+fcppt::log::name route_name(fcppt::log::name const &n, unsigned const r)
+{
+  return vh::sm::checked(
+      sm_mismatch,
+      "log::name",
+      r,
+      n,
+      [&n] { return fcppt::log::name{n.get() + "zq"}; },
+      [](fcppt::log::name const &x) { return x.get(); });
+}
+
+std::string show_loc_raw(fcppt::log::location const &l)
+{
+  std::string r{l.string() + "#"};
+  for (auto it = l.begin(); it != l.end(); ++it)
+    r += *it + "|";
+  return r;
+}
+
+fcppt::log::location route_loc(fcppt::log::location const &l, unsigned const r)
+{
+  return vh::sm::checked(
+      sm_mismatch,
+      "log::location",
+      r,
+      l,
+      [&l]
+      {
+        // the entries in reverse order and one more
+        std::vector<fcppt::string> const es(l.begin(), l.end());
+        fcppt::log::location o{fcppt::log::name{fcppt::string{"zq"}}};
+        for (auto it = es.rbegin(); it != es.rend(); ++it)
+          o /= fcppt::log::name{*it};
+        return o;
+      },
+      show_loc_raw);
+}
+
+fcppt::log::optional_level route_level(fcppt::log::optional_level const &l, unsigned const r)
+{
+  return vh::sm::checked(
+      sm_mismatch,
+      "log::optional_level",
+      r,
+      l,
+      [&l, r]
+      {
+        if (l.has_value() && (r / vh::sm::copy_routes) % 2U == 0U)
+          return fcppt::log::optional_level{};
+        return fcppt::log::optional_level{
+            l.has_value() && l.get_unsafe() == fcppt::log::level::warning ? fcppt::log::level::debug : fcppt::log::level::warning};
+      },
+      [](fcppt::log::optional_level const &x)
+      {
+        return fcppt::optional::maybe(
+            x, [] { return std::string{"-"}; }, [](fcppt::log::level const e) { return std::to_string(static_cast<unsigned>(e)); });
+      });
+}
+
+fcppt::log::parameters route_params(fcppt::log::parameters const &p, unsigned const r)
+{
+  return vh::sm::checked(
+      sm_mismatch,
+      "log::parameters",
+      r,
+      p,
+      [&p, r] { return fcppt::log::parameters{fcppt::log::name{p.name().get() + "zq"}, other_fn(p.formatter(), r)}; },
+      [](fcppt::log::parameters const &x) { return x.name().get() + "#" + show_fn_raw(x.formatter()); });
+}
+
+std::ostringstream sm_other_sink; // the destination of the "other" level_stream; never written to
+
+fcppt::log::level_stream route_stream(fcppt::log::level_stream const &s, unsigned const r)
+{
+  return vh::sm::checked(
+      sm_mismatch,
+      "log::level_stream",
+      r,
+      s,
+      [&s, r] { return fcppt::log::level_stream{sm_other_sink, other_fn(s.formatter(), r)}; },
+      [](fcppt::log::level_stream const &x)
+      { return std::to_string(reinterpret_cast<std::uintptr_t>(&const_cast<fcppt::log::level_stream &>(x).get()) == reinterpret_cast<std::uintptr_t>(&sm_other_sink)) + "#" + show_fn_raw(x.formatter()); });
+}
+
 std::unique_ptr<fcppt::log::context> context;
 std::vector<std::unique_ptr<fcppt::log::object>> objects;
 
@@ -94,7 +212,12 @@ void fresh(fcppt::log::optional_level const &root, char const cfg)
   context = std::make_unique<fcppt::log::context>(
       root,
       fcppt::enum_::array_init<fcppt::log::level_stream_array>([cfg](fcppt::log::level const l) {
-        return fcppt::log::level_stream(sinks[static_cast<std::size_t>(l)], stream_formatter(cfg, l));
+        // one of the six streams of every context - chosen by the operation line - travels through a special member
+        if (static_cast<unsigned>(l) != sm_op_salt % level_count)
+          return fcppt::log::level_stream(sinks[static_cast<std::size_t>(l)], stream_formatter(cfg, l));
+        return route_stream(
+            fcppt::log::level_stream(sinks[static_cast<std::size_t>(l)], stream_formatter(cfg, l)),
+            sm_route(12U + static_cast<unsigned>(l)));
       }));
 }
 
@@ -140,19 +263,22 @@ std::optional<unsigned> parse_lvl_nat(std::string const &s)
 std::optional<fcppt::log::optional_level> parse_level(std::string const &s)
 {
   if (s == "-")
-    return fcppt::log::optional_level{};
+    return route_level(fcppt::log::optional_level{}, sm_route(0U));
   auto const n = parse_lvl_nat(s);
   if (!n)
     return std::nullopt;
-  return fcppt::log::optional_level{to_level(*n)};
+  return route_level(fcppt::log::optional_level{to_level(*n)}, sm_route(static_cast<unsigned>(*n)));
 }
 
-fcppt::log::name parse_name(std::string const &s) { return fcppt::log::name{s == "_" ? fcppt::string{} : s}; }
+fcppt::log::name parse_name(std::string const &s)
+{
+  return route_name(fcppt::log::name{s == "_" ? fcppt::string{} : s}, sm_route(vh::sm::mix(1U, s)));
+}
 
 std::optional<fcppt::log::location> parse_loc(std::string const &s)
 {
   if (s == "-")
-    return fcppt::log::location{};
+    return route_loc(fcppt::log::location{}, sm_route(3U));
   std::vector<std::string> parts;
   std::size_t pos = 0;
   while (true)
@@ -172,12 +298,12 @@ std::optional<fcppt::log::location> parse_loc(std::string const &s)
     fcppt::log::location r{};
     for (auto const &p : parts)
       r /= parse_name(p);
-    return r;
+    return route_loc(r, sm_route(vh::sm::mix(2U, s)));
   }
   fcppt::log::location r{parse_name(parts[0])};
   for (std::size_t i = 1; i < parts.size(); ++i)
     r = std::move(r) / parse_name(parts[i]);
-  return r;
+  return route_loc(r, sm_route(vh::sm::mix(2U, s)));
 }
 
 std::vector<std::string> split(std::string const &s, char const sep)
@@ -196,7 +322,7 @@ std::vector<std::string> split(std::string const &s, char const sep)
 }
 
 // `-` | `P:<p>` (format::prefix) | `I:<pre>:<suf>` (format::inserter) | `L:<k>` (format::default_level) | tag
-fcppt::log::format::optional_function parse_fmt(std::string const &s)
+fcppt::log::format::optional_function parse_fmt0(std::string const &s)
 {
   if (s == "-")
     return fcppt::log::format::optional_function{};
@@ -212,6 +338,11 @@ fcppt::log::format::optional_function parse_fmt(std::string const &s)
       return fcppt::log::format::optional_function{fcppt::log::format::default_level(to_level(*l))};
   return fcppt::log::format::optional_function{fcppt::log::format::function{
       [tag = s](fcppt::string const &t) -> fcppt::string { return tag + "<" + t + ">"; }}};
+}
+
+fcppt::log::format::optional_function parse_fmt(std::string const &s)
+{
+  return route_fn(parse_fmt0(s), sm_route(vh::sm::mix(4U, s)));
 }
 
 // ---- canonical text ----------------------------------------------------------------------------------------
@@ -491,7 +622,7 @@ std::optional<std::string> stateless(std::vector<std::string> const &t)
     if (t[3] != "0" && t[3] != "1")
       return "bad-op";
     std::ostringstream a, b;
-    fcppt::log::level_stream stream{a, parse_fmt(t[1])};
+    fcppt::log::level_stream stream{route_stream(fcppt::log::level_stream{a, parse_fmt(t[1])}, sm_route(11U))};
     if (t[3] == "1")
       stream.sink(b);
     stream.log(fcppt::log::out << t[4], parse_fmt(t[2]));
@@ -517,12 +648,12 @@ std::optional<std::string> stateless(std::vector<std::string> const &t)
   }
   if (op == "params" && t.size() == 4)
   {
-    fcppt::log::parameters const p{parse_name(t[1]), parse_fmt(t[2])};
+    fcppt::log::parameters const p{route_params(fcppt::log::parameters{parse_name(t[1]), parse_fmt(t[2])}, sm_route(5U))};
     return "name=" + show_name(p.name().get()) + " f=" + show_opt(p.formatter(), t[3]);
   }
   if (op == "pnf" && t.size() == 3)
   {
-    fcppt::log::parameters const p{fcppt::log::parameters_no_function(parse_name(t[1]))};
+    fcppt::log::parameters const p{route_params(fcppt::log::parameters_no_function(parse_name(t[1])), sm_route(6U))};
     return "name=" + show_name(p.name().get()) + " f=" + show_opt(p.formatter(), t[2]);
   }
   return std::nullopt;
@@ -532,8 +663,8 @@ std::optional<std::string> stateless(std::vector<std::string> const &t)
 fcppt::log::parameters make_params(std::string const &name, std::string const &fmt)
 {
   if (fmt == "-")
-    return fcppt::log::parameters_no_function(parse_name(name));
-  return fcppt::log::parameters{parse_name(name), parse_fmt(fmt)};
+    return route_params(fcppt::log::parameters_no_function(parse_name(name)), sm_route(7U));
+  return route_params(fcppt::log::parameters{parse_name(name), parse_fmt(fmt)}, sm_route(8U));
 }
 
 std::string handle_core(std::vector<std::string> const &t)
@@ -582,7 +713,7 @@ std::string handle_core(std::vector<std::string> const &t)
       return "bad-op";
     // always the two-argument parameters constructor here (objr / objc use parameters_no_function for `-`)
     return add_obj(std::make_unique<fcppt::log::object>(
-        fcppt::make_ref(*context), *loc, fcppt::log::parameters{parse_name(t[2]), parse_fmt(t[3])}));
+        fcppt::make_ref(*context), *loc, route_params(fcppt::log::parameters{parse_name(t[2]), parse_fmt(t[3])}, sm_route(9U))));
   }
   if (op == "objc" && t.size() == 4)
   {
@@ -728,7 +859,7 @@ std::string run_fast(fast_op const &o)
     return add_obj(std::make_unique<fcppt::log::object>(fcppt::make_ref(*context), make_params(o.toks[1], o.toks[2])));
   case fast_op::kind::objl:
     return add_obj(std::make_unique<fcppt::log::object>(
-        fcppt::make_ref(*context), o.loc, fcppt::log::parameters{parse_name(o.toks[2]), parse_fmt(o.toks[3])}));
+        fcppt::make_ref(*context), o.loc, route_params(fcppt::log::parameters{parse_name(o.toks[2]), parse_fmt(o.toks[3])}, sm_route(10U))));
   case fast_op::kind::objc:
     if (o.id >= objects.size() || !objects[o.id])
       return "bad-op";
@@ -898,7 +1029,13 @@ std::string handle(std::vector<std::string> const &t)
 {
   try
   {
-    return handle_inner(t);
+    sm_mismatch.clear();
+    sm_seq = 0U;
+    sm_op_salt = 0U;
+    for (std::string const &tok : t)
+      sm_op_salt = vh::sm::mix(sm_op_salt, tok);
+    std::string const r{handle_inner(t)};
+    return r + sm_mismatch;
   }
   catch (fcppt::exception const &)
   {
